@@ -132,12 +132,12 @@ def p3_skeleton_lemmas(tier, ndjson=(0, 1)):
     ls = []
     for nd in ndjson:
         n = 11 if nd == 0 else 4
-        ids = range(n) if tier != "quick" else (range(0, n, 2) if nd == 0 else range(0, n, 2))
+        ids = range(n) if tier != "quick" else (range(0, n, 2) if nd == 0 else range(0, n))
         for i in ids:
             for cp in ((1,) if tier == "quick" else (1, 0)):
                 ls.append(Lemma("P3.skeleton.%s%d.%s" % ("nd" if nd else "sk", i, "copy" if cp else "nocopy"), "verifHarness_P3_Skeleton", FP3,
                                 splits=[{"ndjson": nd, "skeleton": i, "copy": cp, "split": 0, "sw": w} for w in ((0, 2) if tier == "quick" else (0, 1, 2))] +
-                                       ([] if tier == "quick" else [{"ndjson": nd, "skeleton": i, "copy": cp, "split": 1, "sw": 0}]),
+                                       ([] if (tier == "quick" and nd == 0) else [{"ndjson": nd, "skeleton": i, "copy": cp, "split": 1, "sw": 0}]),
                                 split_depth=0, intr=Stage2SummIntrinsics,
                                 desc="unifiedMachine on valid token skeleton #%d (%s) with, in turn, each token left completely free (every "
                                      "single-token deviation of the skeleton and the skeleton itself), scalar slots of 1/4/5/8 symbolic bytes, "
